@@ -167,6 +167,13 @@ FULL_FAULTS = {
     "3d-model-into-direct-sampling-contour": ("S4", "contour3"),
     "3d-model-into-and-contour": ("S4", "contour3"),
     "3d-model-into-or-contour": ("S4", "contour3"),
+    # the same with a caller-supplied sample of exactly two columns, and with no sample at all
+    "3d-model-into-direct-sampling-contour/2-column-sample": ("S4", "contour3"),
+    "3d-model-into-and-contour/2-column-sample": ("S4", "contour3"),
+    "3d-model-into-or-contour/2-column-sample": ("S4", "contour3"),
+    "3d-model-into-direct-sampling-contour/own-sample": ("S4", "contour3"),
+    "3d-model-into-and-contour/own-sample": ("S4", "contour3"),
+    "3d-model-into-or-contour/own-sample": ("S4", "contour3"),
     "non-model-into-iform": ("S4", "global"),
     "unknown-slicer-option": ("S0", "conddim-slicer"),
     "unknown-reference-keyword": ("S2", "conddim-slicer"),
@@ -209,6 +216,25 @@ def applicable(pipe, cls):
     return []
 
 
+SEQ_FIRST = ["unknown-fit-method@last", "unknown-weight-keyword@ew", "fitdesc-without-method@last", "dependence-fit-fails"]
+SEQ_SECOND = ["too-few-intervals-data", "data-wrong-columns", "fitdesc-wrong-length", "unknown-fit-method@0", "nan-in-data"]
+
+
+def seq_cases():
+    """fault *sequences* on one model object: a fit that is rejected (after earlier dimensions were
+    already processed), then another ill-formed fit request that must be rejected as well"""
+    out = []
+    for bi, (n, cond, carriers) in enumerate(FULL_PIPES):
+        if not any(c is not None for c in cond):
+            continue
+        for a in SEQ_FIRST:
+            if a == "unknown-weight-keyword@ew" and "ExpWeibull" not in carriers:
+                continue
+            for b in SEQ_SECOND:
+                out.append({"kind": "seq", "base": bi, "faults": [{"cls": a, "pos": None}, {"cls": b, "pos": None}]})
+    return out
+
+
 def all_single_cases():
     cases = []
     # description faults: every structure x position x carrier family
@@ -223,6 +249,7 @@ def all_single_cases():
         for cls in FULL_FAULTS:
             for pos in applicable(probe, cls):
                 cases.append({"kind": "full", "base": bi, "faults": [{"cls": cls, "pos": pos}]})
+    cases += seq_cases()
     return cases
 
 
@@ -311,6 +338,67 @@ def _pipe_of(scen):
         return base_pipeline(n, cond, carriers, "desc")
     n, cond, carriers = FULL_PIPES[scen["base"]]
     return base_pipeline(n, cond, carriers, "full")
+
+
+def run_sequence(pipe, faults):
+    """build the model, then issue two ill-formed fit requests on the same object.
+    Returns (first_raised, second_raised, exception of the second or None)."""
+    from virocon import DependenceFunction, GlobalHierarchicalModel
+
+    n = len(pipe["dims"])
+    descs = []
+    for i, d in enumerate(pipe["dims"]):
+        cls = _family_class(d["family"])
+        if d["cond_on"] is None:
+            dist = cls(**d["truth"])
+            descs.append({"distribution": dist, "intervals": _make_slicer(d["slicer"])})
+        else:
+            dist = cls(**{"f_" + p: v for p, v in d["fixed"].items()})
+            descs.append({"distribution": dist, "intervals": _make_slicer(d["slicer"]), "conditional_on": d["cond_on"], "parameters": {p: DependenceFunction(make_func(v["shape"], [1.0] * SHAPES[v["shape"]][1])) for p, v in d["deps"].items()}})
+    model = GlobalHierarchicalModel(descs)
+    data = _data_for(pipe)
+    ew = [i for i, d in enumerate(pipe["dims"]) if d["family"] == "ExpWeibull"]
+    raised = []
+    last_exc = None
+    for f in faults:
+        fd = copy.deepcopy(pipe["fit_desc"])
+        D = data
+        shim_fail = None
+        c = f["cls"]
+        if c == "unknown-fit-method@last":
+            fd[n - 1] = {"method": "least_squares"}
+        elif c == "unknown-fit-method@0":
+            fd[0] = {"method": "least_squares"}
+        elif c == "unknown-weight-keyword@ew":
+            fd[ew[-1]] = {"method": "wlsq", "weights": "quartic"}
+        elif c == "fitdesc-without-method@last":
+            fd[n - 1] = {"weights": None}
+        elif c == "dependence-fit-fails":
+            shim_fail = [0]
+        elif c == "too-few-intervals-data":
+            # same number of rows, but 97 % of the conditioning values coincide: one interval keeps
+            # enough rows, all others are dropped -> fewer than min_n_intervals
+            D = data.copy()
+            for j in _conditioning_dims(pipe):
+                col = D[:, j]
+                keep = np.arange(len(col)) % 33 == 0
+                D[:, j] = np.where(keep, col, float(np.median(col)))
+        elif c == "data-wrong-columns":
+            D = np.column_stack([data, data[:, 0]])
+        elif c == "fitdesc-wrong-length":
+            fd = fd + [{"method": "mle"}]
+        elif c == "nan-in-data":
+            D = data.copy()
+            D[5, 0] = np.nan
+        try:
+            with seams.OptimiserShim(fail_at=shim_fail):
+                model.fit(D, fd)
+            raised.append(False)
+            last_exc = None
+        except Exception as e:  # noqa: BLE001
+            raised.append(True)
+            last_exc = e
+    return raised, last_exc
 
 
 def _data_for(pipe):
@@ -493,10 +581,13 @@ def run_pipeline(pipe, faults, run=None):
         if has("non-model-into-iform"):
             IFORMContour(descs, 0.05)
         elif any(c.startswith("3d-model-into") for (c, p) in fl):
-            sample = data[:200, :]
             for cname, cls_ in (("3d-model-into-direct-sampling-contour", DirectSamplingContour), ("3d-model-into-and-contour", AndContour), ("3d-model-into-or-contour", OrContour)):
                 if has(cname):
-                    cls_(model, 0.1, sample=sample)
+                    cls_(model, 0.1, sample=data[:200, :])
+                if has(cname + "/2-column-sample"):
+                    cls_(model, 0.1, sample=data[:300, :2].copy())
+                if has(cname + "/own-sample"):
+                    cls_(model, 0.1)
         elif hdc:
             limits = [(0.0, 8.0 + i) for i in range(n)]
             deltas = [0.5] * n
@@ -542,7 +633,44 @@ def latest_stage(pipe, f):
 _TWIN_CACHE = {}
 
 
+def execute_seq(prop, scen):
+    run = core.Run(prop, scen)
+    pipe = _pipe_of(scen)
+    faults = scen["faults"]
+    run.signature = core.digest(["seq", scen["base"], faults])
+    with seams.recorded_warnings():
+        seams.pin_global(core.h64("C18", scen["seed"]))
+        key = ("seq", core.digest(pipe))
+        if key not in _TWIN_CACHE:
+            _TWIN_CACHE[key] = run_sequence(pipe, [{"cls": "none"}, {"cls": "none"}])
+        traised, texc = _TWIN_CACHE[key]
+        if any(traised):
+            run.inconclusive = f"fault-free twin sequence raised: {texc!r}"[:200]
+            return run
+        # is the second request rejected by a *fresh* model?  (it may be something this slicer
+        # legitimately accepts, e.g. equal-count intervals never leave too few)
+        fresh, fexc = run_sequence(pipe, [faults[1]])
+        if not fresh[0]:
+            run.inconclusive = "second request is accepted by a fresh model as well (not ill-formed for this pipeline)"
+            run.nontrivial = False
+            return run
+        raised, exc = run_sequence(pipe, faults)
+        run.event("sequence", faults, [raised, type(exc).__name__ if exc else None], ["F4:" + f["cls"] for f in faults])
+        for f in faults:
+            run.count("fault:F4-seq-" + f["cls"])
+        if not raised[0] and faults[0]["cls"] != "dependence-fit-fails":
+            run.violate("stage-computed-from-ill-formed-spec", faults[0]["cls"].split("@")[0], {"faults": faults, "note": "first request of the sequence accepted"})
+            return run
+        if raised[0]:
+            run.count("probe:second-request-after-rejected-fit")
+        if not raised[1]:
+            run.violate("stage-computed-from-ill-formed-spec", faults[1]["cls"].split("@")[0] + "/after-rejected-fit", {"faults": faults, "first_request_raised": raised[0], "note": "a fresh model rejects the second request; the model whose previous fit was rejected computed a result from it"})
+    return run
+
+
 def execute(prop, scen):
+    if scen["kind"] == "seq":
+        return execute_seq(prop, scen)
     run = core.Run(prop, scen)
     pipe = _pipe_of(scen)
     faults = scen["faults"]
@@ -578,6 +706,8 @@ def execute(prop, scen):
 
 
 def shrink_candidates(prop, scen):
+    if scen["kind"] == "seq":
+        return
     if len(scen["faults"]) > 1:
         for i in range(len(scen["faults"])):
             c = copy.deepcopy(scen)
@@ -617,5 +747,5 @@ def describe(prop):
             "any exception type is accepted as a rejection",
             "negative conditional_on counts as a non-existent variable",
         ],
-        "probes": [],
+        "probes": ["second-request-after-rejected-fit"],
     }
